@@ -389,7 +389,7 @@ def _run_check(prop, tier, seed, t0, harness, cfg, budget, level, targets, scrat
             continue
         seen_cls.add(key)
         # confirm: 3 replays in fresh processes must all fail in the same way
-        rto = 2 * stuck_s if cls.startswith("hang:") else 120
+        rto = 4 * stuck_s if cls.startswith("hang:") else 120
         with ThreadPoolExecutor(max_workers=3) as ex3:
             results = list(ex3.map(lambda _: rp_c.run_bytes(data, timeout=rto), range(3)))
         kinds = set(r["cls"].split(":")[0] for r in results)
